@@ -433,10 +433,10 @@ pub fn c08(cx: &mut Ctx) {
         if !super::to_recv_response(cx, "GET", "HTTP/1.1") { continue; }
         cx.op(&format!("resp {}", hx(b"HTTP/1.1 103 Early Hints\r\nLink: </x>\r\n\r\n")));
         let head = format!("HTTP/1.1 200 OK\r\nContent-Length: {}\r\n\r\n", n).into_bytes();
+        cx.meta(&format!("len {} {}", n, hx(&body)));
         cx.op(&format!("resp {}", hx(&head)));
         cx.op("proceed");
         if cx.rec.state() != "recvBody" { cx.op("close?"); continue; }
-        cx.meta(&format!("len {} {}", n, hx(&body)));
         cx.op("mode");
         let mut stream = body.clone();
         stream.extend_from_slice(NEXT);
@@ -444,6 +444,48 @@ pub fn c08(cx: &mut Ctx) {
         cx.meta(&format!("consumed {}", used));
         cx.op("canproceed");
         cx.op("proceed");
+    }
+    // a request with Expect that gave up waiting: the late 100, the head and the body arrive in ONE window (or the
+    // 100 alone first); the caller drops what each call reports as consumed — the body starts where it starts
+    for n in [1usize, 5, 30, 300] {
+        for split in [false, true] {
+            cx.case("lateboth");
+            let body: Vec<u8> = (0..n).map(|i| b'a' + (i % 26) as u8).collect();
+            cx.rec.new_flow(&format!("POST HTTP/1.1 http://a.test/p 2 expect {} content-length 33", hx(b"100-continue")));
+            cx.op("proceed"); cx.op("write 4096"); cx.op("proceed");
+            if cx.rec.state() != "await100" { continue; }
+            cx.op("proceed");
+            if cx.rec.state() != "sendBody" { continue; }
+            cx.op("bwrite 616263 100"); cx.op("proceed");
+            if cx.rec.state() != "recvResponse" { continue; }
+            let mut stream = b"HTTP/1.1 100 Continue\r\n\r\n".to_vec();
+            let interim = stream.len();
+            stream.extend_from_slice(format!("HTTP/1.1 200 OK\r\nContent-Length: {}\r\n\r\n", n).as_bytes());
+            let head_end = stream.len();
+            stream.extend_from_slice(&body);
+            stream.extend_from_slice(NEXT);
+            let mut soff = 0usize;
+            let mut got = false;
+            for round in 0..4 {
+                let upto = if split && round == 0 { interim } else { stream.len() };
+                let res = cx.op(&format!("resp {}", hx(&stream[soff..upto])));
+                let p: Vec<&str> = res.split(' ').collect();
+                if p[0] != "resp" { break; }
+                soff += p[1].parse::<usize>().unwrap_or(0);
+                if p[2] != "none" { got = true; break; }
+            }
+            if !got { continue; }
+            let _ = head_end;
+            cx.op("proceed");
+            if cx.rec.state() != "recvBody" { cx.op("close?"); continue; }
+            cx.meta(&format!("len {} {}", n, hx(&body)));
+            cx.op("mode");
+            let rest = stream[soff.min(stream.len())..].to_vec();
+            let used = read_schedule(cx, &rest, &[n / 2, rest.len()], &mut || 1000, false);
+            cx.meta(&format!("consumed {}", used));
+            cx.op("canproceed");
+            cx.op("proceed");
+        }
     }
     // an HTTP/1.0 response ignores Transfer-Encoding: with a Content-Length beside it the body is N bytes
     for (hi, head) in ["HTTP/1.0 200 OK\r\nTransfer-Encoding: chunked\r\nContent-Length: 5\r\n\r\n", "HTTP/1.0 200 OK\r\nContent-Length: 5\r\nTransfer-Encoding: chunked\r\n\r\n"].iter().enumerate() {
